@@ -259,6 +259,14 @@ example : pratt tinyOps [.un 0, .atom, .bin 1, .atom, .bin 0, .atom] =
 example : pratt tinyOps [.un 1, .atom, .post 0] = some (.un 1 (.post 0 .atom)) := by decide
 example : pratt tinyOps [.un 0, .atom, .post 0] = some (.post 0 (.un 0 .atom)) := by decide
 example : Respects tinyOps (.bin 1 .atom (.bin 0 .atom .atom)) = false := by decide
+/-- two rules share the operator `-`: `sub = prec.left(1, e - e)` (declared first) and
+`range = prec.right(2, e - e)`; the token stands for `range`, and the tie with the pending `range`
+continues to the right although the token also has the lower reading `sub` -/
+def twinOps : OpTable :=
+  { bin := [{ text := "-", level := 1, right := false, rule := "sub" }, { text := "-", level := 2, right := true, rule := "range" }] }
+example : twinOps.binWinner "-" = some 1 := by decide
+example : pratt twinOps [.atom, .bin 1, .atom, .bin 1, .atom] = some (.bin 1 .atom (.bin 1 .atom .atom)) := by decide
+example : Respects twinOps (.bin 1 (.bin 1 .atom .atom) .atom) = false := by decide
 example : Respects tinyOps (.un 0 (.post 0 .atom)) = false := by decide
 
 /-- a tiny table: `S → a`, start state 1, `a` = symbol 1, `S` = symbol 2 -/
